@@ -1,7 +1,7 @@
 (** C01_ledger. Total weight never exceeds the configured cache weight: every interleaving of the individual ledger actions
     This file only pins statements: every theorem restates a lemma of proofs/ verbatim and is closed by it. *)
-From CacheD Require Import Base Ledger.
-From CacheD.proofs Require Import LedgerProofs.
+From CacheD Require Import Base Ledger LedgerUpd LedgerRun.
+From CacheD.proofs Require Import LedgerProofs LedgerRunProofs.
 
 (** at every instant of every interleaving *)
 Theorem C01_all_interleavings :
@@ -25,4 +25,12 @@ Theorem C01_ledger_add_within_limit :
   g_used (gstep (grun max sched) AAdd) <= max /\ g_used (gstep (grun max sched) AAdd) = g_used (grun max sched) + w.
 Proof. exact ledger_add_within_limit. Qed.
 Print Assumptions C01_ledger_add_within_limit.
+
+(** (C01): every state the action-level correspondence observes on the model side - after any number of groups of
+   ledger actions of the worker and the sweeper - has its total between 0 and the cache weight *)
+Theorem C01_ledger_trace_bounded :
+  forall max groups st, 0 < max ->
+  In st (gtrace (ginit max) groups) -> 0 <= g_used st <= max.
+Proof. exact ledger_trace_bounded. Qed.
+Print Assumptions C01_ledger_trace_bounded.
 
